@@ -66,6 +66,9 @@ func verifyAll(w *World, spec *Specs, fns []*ssa.Function, opt solveOpts, worker
 			t1 := time.Now()
 			e.solve(opt)
 			r.solveMs = int(time.Since(t1).Milliseconds())
+			if os.Getenv("GOVC_PROGRESS") != "" {
+				fmt.Fprintf(os.Stderr, "solve %s %dms\n", shortName(f), r.solveMs)
+			}
 		}()
 	}
 	wg.Wait()
